@@ -276,16 +276,17 @@ def run(ctx):
                 if raws and any(pp and pp[0] == "preceding" for pp in parts) and pol == d.a[0].endswith("::ne"):
                     continue
             # a bool flag that is only ever set to true right after the typed text was pushed as the emoticon literal
-            t = b.blocks[s]["term"]
-            if t["discr"]["k"] != "const" and not t["discr"]["place"]["p"] and pol is False:
+            t = b.blocks[s]["term"] if isinstance(s, int) and s < len(b.blocks) else {"k": "?"}
+            if t["k"] == "switch" and t["discr"]["k"] != "const" and not t["discr"]["place"]["p"] and pol is False:
                 loc = t["discr"]["place"]["l"]
-                # follow one copy
-                defs = b.defs.get(loc, [])
-                if len(defs) == 1 and defs[0][2] == "assign" and defs[0][3]["rv"]["k"] == "use" and defs[0][3]["rv"]["op"]["k"] in ("copy", "move"):
-                    loc = defs[0][3]["rv"]["op"]["place"]["l"]
-                    defs = b.defs.get(loc, [])
-                trues = [d_ for d_ in defs if d_[2] == "assign" and d_[3]["rv"]["k"] == "use" and d_[3]["rv"]["op"].get("bool") is True]
-                falses = [d_ for d_ in defs if d_[2] == "assign" and d_[3]["rv"]["k"] == "use" and d_[3]["rv"]["op"].get("bool") is False]
+                # the constant assignments the flag's value can come from (through copies: a stage's return value, `a && stage()`)
+                from engine.analyses import _flag_sources
+                srcs_ = _flag_sources(b, loc)
+                trues = falses = defs = []
+                if srcs_ is not None and all(isinstance(v_, bool) for (_, v_) in srcs_):
+                    trues = [(bb_,) for (bb_, v_) in srcs_ if v_ is True]
+                    falses = [(bb_,) for (bb_, v_) in srcs_ if v_ is False]
+                    defs = trues + falses
                 if trues and len(trues) + len(falses) == len(defs):
                     lit_blocks = [q.outer_bb for q in events if q.fn == p.fn and q.item is not None and classify_source(prog, q) in ("emoticon-literal", "emoji")]
                     if all(any(b.dominates(lb, d_[0]) or lb == d_[0] for lb in lit_blocks) or
@@ -524,6 +525,9 @@ def classify_source(prog, p):
                 return "emoji"
             if contains_call(recv, lambda n: n.endswith("get_words_for")):
                 return "dictionary"
+            from . import phonetic as _ph0
+            if _ph0.is_autocorrect_value(prog, recv):
+                return "autocorrect"            # `look-up.map(|correct| Rank::…(convert(correct)))`: the closure's parameter is the look-up's payload
     from . import phonetic as _ph
     if _ph.is_autocorrect_value(prog, item):
         return "autocorrect"
